@@ -8,8 +8,9 @@
              Outside: programs with next_rule are compared with the faithful model (and with the Spec, except the
              class [later_ref_next] whose reading the property text does not settle).  All former defects (surgery:
              C08-a/b/c/f, /repo 4511011; next_rule: C08-d/e, 35fa150; C08-g, 6dfdafd) are regression theorems. *)
-From Coq Require Import List ZArith Bool Arith.
-From Krrood Require Import Eql.RuleSpec Eql.RuleEval Eql.RuleBuild Eql.RulePure Eql.RuleEvalProofs Eql.RuleSpecProofs Eql.RuleProofs.
+From Coq Require Import List ZArith Bool Arith Permutation.
+From Krrood Require Import Eql.RuleSpec Eql.RuleEval Eql.RuleBuild Eql.RulePure Eql.RuleEvalProofs Eql.RuleSpecProofs Eql.RuleProofs
+  Eql.RuleNextProofs Eql.RuleNextSpecProofs.
 Import ListNotations.
 
 (* the central theorem: for every program of the fragment (any conditions, any conclusions) and every domain contents,
@@ -17,6 +18,21 @@ Import ListNotations.
 Theorem C08_rules : forall prog, Fb prog = true -> forall W,
   exists rows, model prog W = Some rows /\ singles rows = Some (rdr prog W).
 Proof. exact rules_ok. Qed.
+
+(* the same for programs WITH a next_rule, in the extended fragment [Fb_next]: the program is built as written, its
+   last top-level branch is a next_rule without refinements, there is no other next_rule, and the next_rule's conclusion is
+   not the conclusion of another rule.  The statement is up to PERMUTATION: the second pass of Next (Union) emits the
+   additional instances after all first-pass instances, the Spec lists them element by element. *)
+Theorem C08_rules_next : forall prog, Fb_next prog = true -> forall W,
+  exists rows xs, model prog W = Some rows /\ singles rows = Some xs /\ Permutation xs (rdr prog W).
+Proof. exact rules_next_ok. Qed.
+
+(* evaluation of Next(l, leaf) at the root, for every Next-free l with distinct nodes and every domain: first-pass rows
+   (l's conclusion, else the leaf's) followed by second-pass rows (the leaf's conclusion where it is not covered yet) *)
+Theorem C08_ruleeval_root_next : forall W id idr l csr cr,
+  nextfree l = true -> NoDup (ids (Node id SNext l (Leaf idr csr cr))) ->
+  run W (Node id SNext l (Leaf idr csr cr)) = flat_map (f1 l csr cr) (enum W) ++ flat_map (f2 l csr cr) (enum W).
+Proof. exact run_root_next. Qed.
 
 (* construction: what Gb means -- the tree the evaluator sees is the written tree *)
 Theorem C08_build_shape : forall prog, Gb prog = true ->
@@ -89,12 +105,15 @@ Theorem C08_unsettled_reading :
 Proof. exact unsettled_reading. Qed.
 
 Example C08_nonvacuous :
+  Fb_next w_next = true /\ Fb_next w_alt_next = true /\
   Fb ex_prog = true /\
   rdr ex_prog W8 = [(0, 0); (2, 1); (1, 2); (1, 3); (1, 4); (1, 5); (3, 7)] /\
   model_tags ex_prog W8 = rdr ex_prog W8.
-Proof. exact ex_nonvacuous. Qed.
+Proof. exact ex_nonvacuous2. Qed.
 
 Print Assumptions C08_rules.
+Print Assumptions C08_rules_next.
+Print Assumptions C08_ruleeval_root_next.
 Print Assumptions C08_build_shape.
 Print Assumptions C08_ruleeval_ok.
 Print Assumptions C08_tree_is_rdr.
